@@ -1,7 +1,7 @@
 From Coq Require Import List Arith Bool String.
 From Wire Require Import Sets Acyclic Solve Names Front Exec Model Emit Cli CopyAst ModelThms NamesThms Bridge ProcessWF Perm PermModel EmitThms Regroup RegroupModel SolveBound SolveBoundModel.
 From Wire Require Show ShowBound FrontRules InjBody.
-From Wire Require ChainRefuted AccessRules Paths Layout LayoutThms Once OnceModel ExecThms Rename Imports.
+From Wire Require ChainRefuted CacheKey AccessRules Paths Layout LayoutThms Once OnceModel ExecThms Rename Imports.
 Import ListNotations.
 
 (* The property theorems.  This file contains nothing but statements closed by [exact lemma] and the
@@ -731,6 +731,16 @@ Theorem C06_missing_accepted : forall tyorder root args out pm s usedk,
   (forall t, In t (errs s) <-> reach (core_pm pm) out t /\ core_pm pm t = None) /\ NoDup (errs s).
 Proof. exact accepted_missing. Qed.
 Print Assumptions C06_missing_accepted.
+
+(* the object cache is transparent: whatever was looked up before, a package-level object gets its own result and
+   anything else is refused (one package-level object per name per package is Go's; the premise fails if the key is
+   the package name instead of its path) *)
+Theorem C06_object_cache_transparent : forall (analyse : CacheKey.obj -> nat),
+  (forall o o', CacheKey.o_pkg_level o = true -> CacheKey.o_pkg_level o' = true -> CacheKey.key o = CacheKey.key o' -> o = o') ->
+  forall os c, CacheKey.Inv analyse c ->
+  CacheKey.gets analyse c os = map (fun o => if CacheKey.o_pkg_level o then Some (analyse o) else None) os.
+Proof. exact CacheKey.gets_transparent. Qed.
+Print Assumptions C06_object_cache_transparent.
 
 Theorem C06_rejected_names_missing_accepted : forall tyorder root args out pm ds,
   process_set tyorder args root = inl pm -> solve pm root args out = inr ds ->
